@@ -746,6 +746,9 @@ def gen_stats_query(rng, schema, ds, opts=None):
     group_cols = []
     if rng.random() < opts.get("groupby", 0.35):
         cands = [c["name"] for c in cols if c["dtype"] in ("StringCol", "IntCol", "Int64Col")]
+        if rng.random() < 0.25:
+            # grouping by a list column: the group key joins the elements with the separator that also joins the columns
+            cands = cands + [c["name"] for c in cols if c["dtype"] in ("StringListCol", "Int64ListCol")] * 3
         group_cols = rng.sample(cands, min(rng.choice([1, 1, 2]), len(cands)))
         lines.append("Columns: " + " ".join(group_cols))
     lines += gen_filter_lines(rng, schema, ds, table, cols, dict(opts, nfilters=[0, 0, 1, 1, 2]))
